@@ -24,6 +24,8 @@ class Canon:
 
     def __init__(self, f):
         self.f = f
+        if len(f.pos_params) < 2:
+            raise AnalysisError(f"{f.qualname} no longer takes (schema, output stream): the canonical form is produced in a way this rule does not follow")
         self.S, self.FO = f.pos_params[0], f.pos_params[1]
         tv = [n.targets[0].id for n in walk_local(f.node) if isinstance(n, ast.Assign) and isinstance(n.targets[0], ast.Name) and norm(n.value) in (f"{self.S}['type']", f"{self.S}.get('type')")]
         self.tvar = tv[0] if tv else f"{self.S}['type']"
